@@ -97,7 +97,33 @@ def judge(ch, label, cul, q, ref, src):
 
 
 def body(ch):
-    part = ch.pick('part', ('specs', 'generated', 'nonexistent'))
+    part = ch.pick('part', ('specs', 'generated', 'nonexistent', 'two-threads'))
+    if part == 'two-threads':
+        # two callers with expressions of different kinds share the cached model: every schedule with <= 1 preemption at
+        # 'coarse' granularity (entry of every extract/parse and of every function of the merging modules); every entity either
+        # caller receives must still be well formed and equal to what the caller gets alone
+        import os
+        from vmc import env, sched
+        ref = datetime(2016, 11, 7, 12, 0, 0)
+        pair = ch.pick('pair', (('nov 7 2016', 'at 3 pm'), ('for 3 hours', 'from 2016-01-05 to 2016-02-07')))
+        alone = {q: dt.run('en-us', q, ref) for q in pair}
+        plan, ex = sched.pick_and_run(ch, CFG.setdefault('counts', {}), pair, os.path.join(env.REPO, 'Python', 'libraries'), 'coarse', 1,
+                                      [lambda q=pair[0]: dt.run('en-us', q, ref), lambda q=pair[1]: dt.run('en-us', q, ref)], chunk=60)
+        for tid, q in enumerate(pair):
+            got = ex.results[tid] if ex.errors[tid] is None else None
+            if got is None:
+                ch.fail('two-threads|exception', {'queries': pair, 'plan': plan, 'error': ex.errors[tid]})
+                return
+            for g in got:
+                err = dt.wellformed(g)
+                if err:
+                    ch.fail('two-threads|%s' % err[0], {'queries': pair, 'plan': plan, 'thread': tid, 'entity': g, 'detail': err[1]})
+                    return
+            if got != alone[q]:
+                ch.fail('two-threads|differs-from-sequential', {'queries': pair, 'plan': plan, 'thread': tid, 'observed': got, 'alone': alone[q]})
+                return
+        ch.ok(case=(pair, tuple(map(tuple, plan))), outcome='two-threads', evals=2)
+        return
     if part == 'specs':
         cases = CFG['spec_cases']
         ci = ch.pick_index('chunk', (len(cases) + 19) // 20)
